@@ -472,11 +472,19 @@ def _limit_docs():
     for t in ("<a>", "<a/>", "<a b>", "<a b=c>", "<a b='c'>", '<a b="c">', "<a b=>", "<a b='>", "<a\nb>", "</a>", "</a b>", "<1a>", "<a.b>", "<a:b>", "<?p?>", "<!D x>", "<![CDATA[x]]>", "<!--c-->"):
         d.append("x " + t + " y")
         d.append(t)
+    # HTML block start conditions 6 and 7 at their lexical borders: what may follow the tag name
+    # (appended after the original entries so that earlier ranks keep their meaning)
+    tail = []
+    for nm in ("a", "div", "pre", "h1", "x-y", "DIV"):
+        for end in ("/ x>", "/ >", "/", "/>", " />", "\t>", " b/>", "/x>", ">x", " b=c d>", "\n>"):
+            tail.append("<" + nm + end + "\n*foo*")
+        tail.append("</" + nm + " x>\n*foo*")
+        tail.append("</" + nm + "\t>\n*foo*")
     for c in range(0, 9):
         d.append(" " * c + "\ta")
         d.append("-" + " " * c + "\ta")
         d.append(">" + " " * c + "\ta")
-    return d
+    return d + tail
 
 
 _LIMITS = None
@@ -507,6 +515,45 @@ class L1Universe(Universe):
         return out + ("\n" if nl == 0 else "")
 
 
+# ---------------------------------------------------------------------------- pairwise feature combinations
+P2_A = [
+    "text", "text [link](/url\n    ) more", "text [link](/url\n\"ti\ntle\") more", "text ![img](/url\n) more", "text `code\nspan` more",
+    "text `\ncode\n` more", "text <b\n  c> more", "text [a][b\nc] more", "text *em\nph* more", "text  \nbreak", "text\\\nbreak", "# heading",
+    "Setext\nheading\n===", "```\ncode\n```", "```py\ncode", "    indented", "<div>\nhtml", "<!-- c\n-->", "[l]: /u", "[l]:\n/u\n'title'",
+    "- item", "- item\n  cont", "-   wide", "1. one\n1. two", "10. ten", "> quote", "> quote\nlazy", "---", "", "\ttab", "text   ",
+    "<!-- pyml disable-next-line md013-->", "* other", "- run `\n  make\n  ` first\n\n  then", "#### deep", "~~~\ncode\n~~~",
+]
+P2_B = [
+    "#notheading", "    #indented", "# h", "#  h2", "## h ##", "#### h4", "text  ", "text", "a\tb", "*e* [x](/u) `c`", "[e]()", "![](/u)", "- item", "-  two",
+    "-   next\n    cont", "* star", "1. one", "3. three", "> q", ">  q2", "```", "~~~", "    code", "---", "***", "===", "<div>", "[l]: /u", "[l] [b c]", "",
+    "a long line that goes on and on and on until it is well past the eighty character limit of md013", "http://bare.url", "<b>", "&amp; \\*", "# h.", "Title\n-----",
+]
+P2_SEP = ["\n", "\n\n"]
+P2_HOSTS = [("", ""), ("> ", "> "), ("- ", "  ")]
+
+
+class P2Universe(Universe):
+    """Pairwise feature combinations: a context-setting construct A (often a multi-line inline element or an open /
+    closed block) followed, directly or after a blank line, by an observing line B (something a rule or the position
+    arithmetic looks at), at top level and inside a quote / list item; a definition for `[b c]` is appended."""
+
+    name = "P2"
+
+    def __init__(self):
+        self.size = len(P2_A) * len(P2_B) * len(P2_SEP) * len(P2_HOSTS)
+
+    def doc(self, rank):
+        h = P2_HOSTS[rank % len(P2_HOSTS)]
+        rank //= len(P2_HOSTS)
+        sep = P2_SEP[rank % len(P2_SEP)]
+        rank //= len(P2_SEP)
+        b = P2_B[rank % len(P2_B)]
+        a = P2_A[rank // len(P2_B)]
+        body = a + sep + b + "\n"
+        out = wrap(body, *h) if h[0] else body
+        return out + "\n[b c]: /u\n"
+
+
 _pairs = [a + b for a in "quo" for b in "quo"]
 _triples = [a + b + c for a in "quo" for b in "quo" for c in "quo"]
 
@@ -528,6 +575,7 @@ def _build():
         "X2": lambda: LinesUniverse("X2", [""], X2_LINES, 3, newline_variants=False),
         "H4": lambda: LinesUniverse("H4", [""], H4_LINES, 4, newline_variants=False, min_lines=2),
         "M5": M5Universe,
+        "P2": P2Universe,
         "L1": L1Universe,
     }
 
@@ -538,7 +586,7 @@ def get(name):
     return _REGISTRY[name]
 
 
-ALL = ["B2", "B3", "B4", "I4", "I6", "N1", "W1", "S2", "S3", "U1", "X2", "H4", "M5", "L1"]
+ALL = ["B2", "B3", "B4", "I4", "I6", "N1", "W1", "S2", "S3", "U1", "X2", "H4", "M5", "L1", "P2"]
 
 if __name__ == "__main__":
     tot = 0
